@@ -142,6 +142,22 @@ def run(ctx):
     ctx.extra['generator_distribution'] = stats
     ctx.nontrivial = {t for t in ctx.nontrivial if isinstance(t, str) and any(op in t for op in (' + ', ' * ', ' - ', '/', '<', '>', ' and ', ' or ', '^', '%', '['))}
     random_bounds(ctx, 400 if ctx.thorough() else 60)
+    # every pair of operators chained without parentheses, unary minus, braces inside expressions: valid, so accepted
+    from props import c06
+    import lang
+    for t in c06.valid_expr_texts():
+        ctx.count()
+        try:
+            with lang.time_limit(20):
+                p, e = lang.compile_script(t)
+        except lang.CompilerHangs:
+            ctx.counterexample('C02/valid-expression-compile-does-not-end', 'compiling the valid text %r does not end' % t, {'text': t})
+            continue
+        except Exception as ex:
+            ctx.counterexample('C02/valid-expression-compiler-raises', 'compiling the valid text %r raises %s' % (t, type(ex).__name__), {'text': t})
+            continue
+        if p is None:
+            ctx.counterexample('C02/valid-expression-rejected', 'the valid text %r is rejected: %s' % (t[:160], e.strip()[:100]), {'text': t})
     if summary['cases'] and summary['rejected'] > 0.05 * summary['cases']:
         ctx.broken_tie('correspondence', 'generator: well-formed scripts rejected by the compiler',
                        {'rejected': summary['rejected'], 'of': summary['cases'], 'samples': ctx.extra.get('rejected_samples')})
